@@ -258,14 +258,34 @@ def _node_extra(ctx, res, pid, mode):
             absorb(res, pid, *r)
 
 
+TREE_RULE = ("; plus the commit-time restructuring of one bucket's node tree: the tree right before Commit (pages and materialised nodes), the order of Bucket.rebalance's visits and "
+             "every freelist Free/Allocate of the commit are recorded, and Tree.commit_tree (node.rebalance + node.spill as a function) must predict the tree of pages the commit leaves and "
+             "the event sequence exactly; delete runs that empty leaves, emptied buckets, thinning, growth; 2 page sizes, fill 5-150%")
+
+
+def _tree_extra(ctx, res, pid, mode):
+    """node.rebalance / node.spill against Tree.v (tree after commit: C04; freelist events and page accounting: C07)"""
+    if ctx.replay:
+        return
+    ctx2 = Ctx(pid=pid, tier=ctx.tier, seed=ctx.seed, replay=None, t0=ctx.t0, budget_s=ctx.budget_s)
+    ctx2.dir = ctx.dir + ".t"
+    with ctx2:
+        quick = ctx.tier == "quick" or ctx.budget_s
+        runs = run_sharded(ctx2, "tree", 6 if quick else 16, lambda i: ["-seed", str(ctx.seed * 1000 + 800 + i), "-n", "150" if quick else "2500", "-dir", "{dir}"],
+                           ctx.budget_s or (600 if quick else 3000), oracle_mode=mode)
+        for r in runs:
+            absorb(res, pid, *r)
+
+
 def c04(ctx):
     """C04 nested ordered map: every API result and every dump of the implementation vs Spec.v; node.go's put/del/split vs Node.v.
     Assumes: root bucket reached only through Tx methods; bucket names <= 32768 bytes. About one history in 24 ends by moving a bucket into its own subtree (known finding D4:
     the reference refuses, the code returns nil and drops the subtree); every other disagreement is a violation."""
     if ctx.replay and _is_node_replay(ctx.replay):
         return _node_replay(ctx, "C04", "node04")
-    res = _hist(ctx, "c04", "none", HIST_RULE + NODE_RULE, 400, 8000, as_propfail=True, extra_args=("-selfmoves",))
+    res = _hist(ctx, "c04", "none", HIST_RULE + NODE_RULE + TREE_RULE, 400, 8000, as_propfail=True, extra_args=("-selfmoves",))
     _node_extra(ctx, res, "C04", "node04")
+    _tree_extra(ctx, res, "C04", "tree04")
     return res
 
 
@@ -282,6 +302,7 @@ def c07(ctx):
                                ctx.budget_s or (900 if ctx.tier == "quick" else 3000), oracle_mode="c07")
             for r in runs:
                 absorb(res, "C07", *r)
+    _tree_extra(ctx, res, "C07", "tree07")
     return res
 
 
